@@ -109,7 +109,26 @@ fn probe_generic<T: PartialOrd + Clone + Debug>(ca: &[T], cb: &[T], c: &ProbeCas
     ensure!(got == want, format!("C07/contains/{k}"), "{ia:?}.contains({x:?}) = {got}, sets say {want}");
     let rb = <Interval<T> as RangeBounds<T>>::contains(&ia, &x);
     ensure!(rb == want, format!("C07/rangebounds_contains/{k}/{pos}"), "RangeBounds::contains({ia:?}, {x:?}) = {rb}, Interval::contains = {got}, sets say {want}");
+    // the range view is its two bounds: membership decided from start_bound()/end_bound() directly
+    let viab = via_bounds(&ia, &x);
+    ensure!(viab == want, format!("C07/range_bounds_view/{k}/{pos}"), "(start_bound, end_bound) of {ia:?} = ({:?}, {:?}) {} {x:?}, sets say {want}", ia.start_bound(), ia.end_bound(), if viab { "contains" } else { "excludes" });
     Ok(())
+}
+
+/// membership according to the interval's own start_bound() / end_bound()
+fn via_bounds<T: PartialOrd>(i: &Interval<T>, x: &T) -> bool {
+    use std::ops::Bound::*;
+    let lo_ok = match i.start_bound() {
+        Included(l) => l <= x,
+        Excluded(l) => l < x,
+        Unbounded => true,
+    };
+    let hi_ok = match i.end_bound() {
+        Included(h) => x <= h,
+        Excluded(h) => x < h,
+        Unbounded => true,
+    };
+    lo_ok && hi_ok
 }
 
 pub fn pair_case(c: &PairCase, obs: &mut Obs) -> PResult {
@@ -239,6 +258,8 @@ fn wide_generic<T: PartialOrd + Copy + Debug>(ka: u8, a: (T, T), kb: u8, b: (T, 
     let rb = <Interval<T> as RangeBounds<T>>::contains(&ia, &x);
     let pos = if want_c { "member" } else { "outside" };
     ensure!(rb == want_c, format!("C07/rangebounds_contains/{k}/{pos}"), "RangeBounds::contains({ia:?}, {x:?}) = {rb}, sets say {want_c}");
+    let viab = !unordered && via_bounds(&ia, &x);
+    ensure!(viab == want_c, format!("C07/range_bounds_view/{k}/{pos}"), "(start_bound, end_bound) of {ia:?} = ({:?}, {:?}) disagree with the set about {x:?} (sets say {want_c})", ia.start_bound(), ia.end_bound());
     Ok(())
 }
 pub fn wide_i(c: &WideI, obs: &mut Obs) -> PResult {
